@@ -276,7 +276,7 @@ class ApiGen:
         ev = [' '.join(e.split()[1:]) for e in o.events]
         fr = [i for i, e in enumerate(o.events) if e.startswith('E free')]
         ok = (len(fr) == 1 and (' %s ' % blk) in o.events[fr[0]] and o.events[fr[0]].endswith('zeroed=1')
-              and any(e.startswith('E zero') and (' %s ' % blk) in e + ' ' for e in o.events[:fr[0]]))
+              and any(e.startswith('E zero') and ((' %s ' % blk) in e + ' ' or (' inside-%s ' % blk) in e + ' ') for e in o.events[:fr[0]]))
         if not ok:
             self.report('C16' if any('zeroed=0' in e for e in o.events) or not any(e.startswith('E zero') for e in o.events) else 'C15',
                         'free-events', 'freeing %s produced %s, expected wipe of the block followed by exactly one free of it' % (blk, ev))
